@@ -80,6 +80,12 @@ def run(tier, acc):
     acc.violations += cc.records("C02", res, cs, KINDS)
     cc.exhaustive(acc, "C02", tier, ALL)
     cse_guards(acc, tier)
+    # the cl23+ post-codegen rewrites (null_optimization, remove_double_apply, brief_path_selection) as functions on CLVM:
+    # every term TLC enumerates (two alphabets) is rewritten by the real functions; where the term returns v in an
+    # environment, the rewritten term returns v (Clvm.tla is cross-checked against clvmr on every vector)
+    from props import clvmcommon as clv
+    clv.gen_and_replay(acc, "post_step", 4 if tier == "quick" else 5, "stepper", "clean", "C02")
+    clv.gen_and_replay(acc, "post_opt", 4 if tier == "quick" else 5, "opt", "clean", "C02")
     acc.nontrivial += sum(v for k, v in acc.counts.items() if k.endswith("_ok"))
 
 
